@@ -35,7 +35,8 @@ Drifts(r) ==
   IF r.kind # "sched" THEN {} ELSE
   LET Lm == Layout(Optimize(Progs[r.prog], MaskOf(r.prog), DefaultCfg)) IN
   {<<"DRIFT", r.id, p, "concurrent-model">> : p \in {q \in Idx(r.calls) :
-        LET m == Run(Lm, EnvOf(q)) IN ~OutcomeEq(m.res, r.calls[q].res) \/ Len(m.eff) # Len(r.calls[q].eff)}}
+        LET m == IF r.calls[q].api = "tryeval" THEN TryRun(Lm, EnvOf(q), AvOf(q)) ELSE Run(Lm, EnvOf(q))
+        IN ~OutcomeEq(m.res, r.calls[q].res) \/ Len(m.eff) # Len(r.calls[q].eff)}}
   \cup (IF r.desync THEN {<<"DRIFT", r.id, 0, "schedule-desynchronised">>} ELSE {})
 
 JInit == l = 1 /\ judged = 0 /\ nontriv = 0 /\ skipped = 0 /\ drift = 0 /\ found = 0
